@@ -103,6 +103,7 @@ func (t *JitterTicker) schedule() {
 	gen := t.gen
 
 	t.timer = time.AfterFunc(next, func() {
+		verifHook("ticker.fire")
 		t.m.Lock()
 		if t.gen == gen {
 			select {
